@@ -115,6 +115,20 @@ def indexed (lo : Nat) : List Step → Bool
   | [] => true
   | t :: rest => decide (lo < t.idx) && t.change.all (fun c => c.index = t.idx) && indexed t.idx rest
 
+/-- a Get would return a value at `p`. -/
+def readable (side : VMap) (p : Str) : Bool := side.any (fun e => e.path = p && !e.deleted)
+
+/-- the change can be rolled back (C06): every path of the change that the change deletes, or that
+    was not readable before (so that the rollback deletes it again), has no stored path strictly
+    (textually) below it and no other path of the change below it.  Leaf updates, leaf deletes,
+    overwrites and creation of new leaves without stored textual extensions qualify; the delete
+    of a path with stored descendants does not. -/
+def rollbackSafe (side ch : VMap) : Bool :=
+  ch.all fun c' =>
+    !(c'.deleted || !readable side c'.path) ||
+      (side.all (fun e => !strictlyBelow e.path c'.path) &&
+       ch.all (fun c => c.path = c'.path || !hasPrefix c.path c'.path))
+
 /-- an admissible iteration order: some permutation. -/
 def IsPerm (ordU : VMap → VMap) : Prop := ∀ m, (ordU m).Perm m
 
